@@ -1,4 +1,5 @@
 import PgBifrost.Proofs.BatcherTick
+import PgBifrost.Gen.TickSrc
 import PgBifrost.Gen.MainOpts
 import PgBifrost.Proofs.BatcherTimed
 import PgBifrost.Gen.Conds
@@ -283,5 +284,63 @@ theorem options_reach_their_own_slot :
       ("batcher.NewBatcher", "maxMemoryBytes", "batcherMemorySoftLimit"),
       ("batcher.NewBatcher", "routingMethod", "routingMethod")
     ] := ⟨rfl, rfl, rfl⟩
+
+/-- The structure of `handleTicker` around the translated conditions (`tick_decision_as_in_source`,
+`pressure_rule_as_in_source`), every statement that is not a log call, with its nesting: only batches NOT marked for
+flushing count towards the memory total and enter the priority queue (keyed by their payload size); under pressure the
+largest is popped, marked, and its payload size subtracted; every marked batch is handed over through `sendBatch`, a
+failed hand-over ends the tick, the batch is deleted from the open set. -/
+theorem handle_ticker_structure_as_in_source :
+    PgBifrost.Gen.TickSrc.stmts = [
+      "toFlush := make([]string, 0)",
+      "totalMemory := int64(0)",
+      "bq := make(queue.BatchQueue, 0)",
+      "queueIndex := 0",
+      "for batchKey, curBatch := range b.batches {",
+      "· flush := false",
+      "· if curBatch.IsEmpty() {",
+      "· · flush = true",
+      "· }",
+      "· if curBatch.ModifyTime() < time.Now().UnixNano()-b.flushBatchUpdateAge.Nanoseconds() {",
+      "· · flush = true",
+      "· }",
+      "· if curBatch.CreateTime() < time.Now().UnixNano()-b.flushBatchMaxAge.Nanoseconds() {",
+      "· · flush = true",
+      "· }",
+      "· if curBatch.IsFull() {",
+      "· · flush = true",
+      "· }",
+      "· if flush {",
+      "· · toFlush = append(toFlush, batchKey)",
+      "· } else {",
+      "· · batchMemorySize := curBatch.GetPayloadByteSize()",
+      "· · totalMemory += batchMemorySize",
+      "· · a := &queue.BatchQueueItem{ Batch: curBatch, Index: queueIndex, Priority: batchMemorySize, Key: batchKey, }",
+      "· · bq.Push(a)",
+      "· · queueIndex += 1",
+      "· }",
+      "}",
+      "if totalMemory >= b.batcherMemorySoftLimit {",
+      "· heap.Init(&bq)",
+      "· for {",
+      "· · if totalMemory < b.batcherMemorySoftLimit {",
+      "· · · break",
+      "· · }",
+      "· · item := heap.Pop(&bq).(*queue.BatchQueueItem)",
+      "· · toFlush = append(toFlush, item.Key)",
+      "· · totalMemory -= item.Batch.GetPayloadByteSize()",
+      "· }",
+      "}",
+      "for _, key := range toFlush {",
+      "· curBatch := b.batches[key]",
+      "· ok := b.sendBatch(curBatch)",
+      "· if !ok {",
+      "· · return false",
+      "· }",
+      "· b.statsChan <- stats.NewStatCount(\"batcher\", \"batch_closed_early\", 1, time.Now().UnixNano())",
+      "· delete(b.batches, key)",
+      "}",
+      "return true"
+    ] := rfl
 
 end PgBifrost.Props.C16
